@@ -21,13 +21,13 @@ Proof.
   intros Hm Hj. destruct defaults_wf as (Di & Dm1 & Dm2 & Dj).
   unfold backoff_wf, merge_defaults; cbn [bo_initial bo_mul bo_jitter].
   split; [|split; [|split]].
-  - destruct (bo_initial b <=? 0) eqn:E; lia.
-  - destruct (rlt (bo_mul b) (rz 1)); assumption.
-  - destruct (rlt (bo_mul b) (rz 1)) eqn:E; [assumption|].
-    unfold rlt, rz in E; cbn [rnum rden] in E. lia.
-  - destruct ((rle (bo_jitter b) (rz 0) && negb (req (bo_jitter b) jitter_off)) || rle (rz 1) (bo_jitter b)) eqn:E;
+  - unfold merge_initial_le. destruct (bo_initial b <=? 0) eqn:E; lia.
+  - destruct (rlt (bo_mul b) (rz merge_multiplier_lt)); assumption.
+  - destruct (rlt (bo_mul b) (rz merge_multiplier_lt)) eqn:E; [assumption|].
+    unfold rlt, rz, merge_multiplier_lt in E; cbn [rnum rden] in E. lia.
+  - destruct ((rle (bo_jitter b) (rz merge_jitter_le) && negb (req (bo_jitter b) (rz merge_jitter_flag))) || rle (rz merge_jitter_ge) (bo_jitter b)) eqn:E;
       [assumption|].
-    unfold rle, req, jitter_off, rz in E; cbn [rnum rden] in E.
+    unfold rle, req, rz, merge_jitter_le, merge_jitter_flag, merge_jitter_ge in E; cbn [rnum rden] in E.
     unfold jitter_ok. split; [assumption|]. lia.
 Qed.
 
@@ -36,10 +36,10 @@ Lemma merge_idem (b : backoff) : backoff_wf b -> merge_defaults b = b.
 Proof.
   intros (Hi & Hm1 & Hm2 & Hj1 & Hj2). destruct b as [i m j mi me mr]; cbn [bo_initial bo_mul bo_jitter] in *.
   unfold merge_defaults; cbn [bo_initial bo_mul bo_jitter bo_max_interval bo_max_elapsed bo_max_retries].
-  replace (i <=? 0) with false by lia.
-  replace (rlt m (rz 1)) with false by (unfold rlt, rz; cbn [rnum rden]; lia).
-  replace ((rle j (rz 0) && negb (req j jitter_off)) || rle (rz 1) j) with false
-    by (unfold rle, req, jitter_off, rz; cbn [rnum rden]; lia).
+  replace (i <=? merge_initial_le) with false by (unfold merge_initial_le; lia).
+  replace (rlt m (rz merge_multiplier_lt)) with false by (unfold rlt, rz, merge_multiplier_lt; cbn [rnum rden]; lia).
+  replace ((rle j (rz merge_jitter_le) && negb (req j (rz merge_jitter_flag))) || rle (rz merge_jitter_ge) j) with false
+    by (unfold rle, req, rz, merge_jitter_le, merge_jitter_flag, merge_jitter_ge; cbn [rnum rden]; lia).
   reflexivity.
 Qed.
 
@@ -94,7 +94,7 @@ Lemma next_interval_bounds (j u : rat) (x : Z) :
 Proof.
   intros Hjd Hj Hu Hx.
   unfold next_interval.
-  replace (req j jitter_off) with false by (unfold req, jitter_off, rz; cbn [rnum rden]; lia).
+  replace (req j jitter_off) with false by (unfold req, jitter_off, rz, next_interval_flag; cbn [rnum rden]; lia).
   unfold rtrunc, radd, rsub, rmul, rz, jitter_lo, jitter_hi; cbn [rnum rden].
   set (jn := rnum j) in *. set (jd := rden j) in *. set (un := rnum u) in *. set (ud := rden u) in *.
   rewrite !Z.mul_1_l, !Z.mul_1_r.
@@ -135,7 +135,7 @@ Proof.
   destruct (req (bo_jitter b) jitter_off) eqn:E.
   - now apply next_interval_off.
   - apply next_interval_bounds; try assumption.
-    unfold req, jitter_off, rz in E; cbn [rnum rden] in E. lia.
+    unfold req, jitter_off, rz, next_interval_flag in E; cbn [rnum rden] in E. lia.
 Qed.
 
 (* ---- one call of next() from the state the property text describes ---------------- *)
@@ -349,7 +349,7 @@ Theorem merge_fields (b0 : backoff) :
   bo_max_retries b = bo_max_retries b0.
 Proof.
   intros [Hm Hj]. unfold merge_defaults; cbn [bo_initial bo_mul bo_jitter bo_max_interval bo_max_elapsed bo_max_retries].
-  unfold rle, rlt, req, jitter_off, rz; cbn [rnum rden].
+  unfold rle, rlt, req, jitter_off, rz, next_interval_flag, merge_initial_le, merge_multiplier_lt, merge_jitter_le, merge_jitter_flag, merge_jitter_ge; cbn [rnum rden].
   repeat split.
   - destruct (bo_initial b0 <=? 0) eqn:E1; destruct (0 <? bo_initial b0) eqn:E2; lia || reflexivity.
   - destruct (rnum (bo_mul b0) * 1 <? 1 * rden (bo_mul b0)) eqn:E1;
@@ -364,7 +364,7 @@ Lemma next_interval_u0 (j : rat) (x : Z) :
   0 < rden j -> 0 < rnum j < rden j -> 0 <= x -> next_interval j (mkrat 0 1) x = jitter_lo j x.
 Proof.
   intros Hjd Hj Hx. unfold next_interval.
-  replace (req j jitter_off) with false by (unfold req, jitter_off, rz; cbn [rnum rden]; lia).
+  replace (req j jitter_off) with false by (unfold req, jitter_off, rz, next_interval_flag; cbn [rnum rden]; lia).
   unfold rtrunc, radd, rsub, rmul, rz, jitter_lo; cbn [rnum rden].
   set (jn := rnum j) in *. set (jd := rden j) in *.
   rewrite !Z.mul_1_l, !Z.mul_1_r, !Z.mul_0_l, Z.add_0_r.
